@@ -14,6 +14,12 @@ from ..refmodel import NOINIT, RM, common_len
 ENGINE = "core"
 CORE_PROPS = ("C01", "C02", "C03", "C05", "C07", "C10")
 LEVEL = "exploration"
+_CO1 = "two connections from one source entity into one (entity, attr): the input dict holds one value per source entity"
+_CO2 = "initial_data on a connection whose source attribute is non-persistent: generated, but exempt from the C03 comparison"
+_CO3 = "replies carrying persistent attributes together with a future time: not generated"
+_CO5 = "no initial data on a time-shifted/weak persistent->trigger connection: None and 'absent' both accepted before the first due output"
+CARVE_OUTS = {"C01": [_CO1, _CO3], "C02": [_CO1, _CO3], "C03": [_CO1, _CO2, _CO3, _CO5], "C05": [_CO1, _CO3],
+              "C07": [_CO1, _CO3], "C10": [_CO1, _CO3]}
 
 
 def make_case(seed: int, tier: str, prop: str, opts=None) -> Dict[str, Any]:
